@@ -81,6 +81,9 @@ func runBounded(repo, verif string, b BoundedSpec, tier, wd string) *BoundedResu
 			}
 		}
 	}
+	if r.Failures < len(r.FailLines) {
+		r.Failures = len(r.FailLines)
+	}
 	if !seen {
 		// the harness did not complete: compile error, panic outside a guard, or timeout
 		tail := out.String()
